@@ -27,6 +27,11 @@ type c02iCase struct {
 	LineKind    string   `json:"line_kind"`  // context | minus: the import line of the change
 	Repeated    bool     `json:"repeated"`   // the metavariable occurs twice in the code pattern
 	Others      int      `json:"others"`     // further imports the file has
+	// Before: a second import of the same path, under this name, that stands
+	// before the other one in the file ("" none). The code is looked for
+	// under each of the two names in turn; the first that has an instance
+	// is the binding for the file.
+	Before string `json:"before,omitempty"`
 }
 
 const c02iPath = "example.com/bound/pkg"
@@ -47,6 +52,12 @@ func c02iDraw(rt *rapid.T) *c02iCase {
 	cs.LineKind = rapid.SampledFrom([]string{"context", "minus"}).Draw(rt, "lineKind")
 	cs.Repeated = rapid.Bool().Draw(rt, "repeated")
 	cs.Others = rapid.IntRange(0, 3).Draw(rt, "others")
+	if cs.FileName != "" && rapid.IntRange(0, 2).Draw(rt, "twice") == 0 {
+		cs.Before = "first"
+		if rapid.Bool().Draw(rt, "usedUnderFirst") {
+			cs.Qualifiers[len(cs.Qualifiers)-1] = "first"
+		}
+	}
 	return cs
 }
 
@@ -55,7 +66,26 @@ func (cs *c02iCase) bound() string {
 	if cs.FileName == "" {
 		return "pk" // the spelling of the metavariable
 	}
+	if cs.Before != "" {
+		for _, q := range cs.Qualifiers {
+			if q == cs.Before {
+				return cs.Before
+			}
+		}
+	}
 	return cs.FileName
+}
+
+// other is the name of the file's other import of the path, if any: calls
+// through it are not judged.
+func (cs *c02iCase) other() string {
+	if cs.Before == "" {
+		return ""
+	}
+	if cs.bound() == cs.Before {
+		return cs.FileName
+	}
+	return cs.Before
 }
 
 func (cs *c02iCase) build() (patch, file string) {
@@ -79,6 +109,9 @@ func (cs *c02iCase) build() (patch, file string) {
 	others := []string{`"fmt"`, `mailer2 "example.com/mail"`, `"example.com/queue/v3"`}
 	for i := 0; i < cs.Others; i++ {
 		f.WriteString("\t" + others[i] + "\n")
+	}
+	if cs.Before != "" {
+		f.WriteString(fmt.Sprintf("\t%s %q\n", cs.Before, c02iPath))
 	}
 	if cs.FileName == "" {
 		f.WriteString(fmt.Sprintf("\t%q\n", c02iPath))
@@ -114,6 +147,9 @@ func evalC02i(cs *c02iCase) (sig, msg string, sites, lookalikes int) {
 		if !cs.Repeated {
 			arg = fmt.Sprintf("msg + \"%d\"", i)
 		}
+		if q == cs.other() && q != "" {
+			continue
+		}
 		isSite := q == cs.bound()
 		if isSite {
 			sites++
@@ -139,7 +175,7 @@ func c02iRun(rt *rapid.T, c *evid.Collector) {
 		c.Foreign("foreign:C08")
 		return
 	}
-	c.Case(evid.Hash(fmt.Sprint(*cs)), sites >= 1 && look >= 1, "family:import-bound-metavariable", "file-import-named:"+fmt.Sprint(cs.FileName != ""), "import-line:"+cs.LineKind, fmt.Sprintf("repeated-in-code:%v", cs.Repeated), "nontrivial")
+	c.Case(evid.Hash(fmt.Sprint(*cs)), sites >= 1 && look >= 1, "family:import-bound-metavariable", "file-import-named:"+fmt.Sprint(cs.FileName != ""), "import-line:"+cs.LineKind, fmt.Sprintf("path-imported-twice:%v", cs.Before != ""), fmt.Sprintf("repeated-in-code:%v", cs.Repeated), "nontrivial")
 	if c.WantSample() {
 		p, f := cs.build()
 		c.Sample(map[string]any{"family": "import-bound-metavariable", "patch": p, "file": f, "sites": sites, "near_misses": look})
